@@ -52,7 +52,7 @@ func (r req) doc() string {
 var kinds = []string{"iq", "message", "presence"}
 var types = []string{"get", "set", "result", "error", "-", "", "bogus"}
 var ids = []string{"a", ""}
-var froms = []string{"", "juliet@example.com/balcony", "me@example.net", "@@bad", "Juliet@Example.COM/balcony"} // the last one: a spelling that is not the canonical form of the address
+var froms = []string{"", "juliet@example.com/balcony", "me@example.net", "@@bad", "Juliet@Example.COM/balcony", "me@example.net/res"} // the last one: a spelling that is not the canonical form of the address ; then the address this session is bound to (only the bare form stands for "no sender")
 var tos = []string{"", "me@example.net/res", "example.net", "someone@else.example/x"} // the last two: our domain, and an address that is not ours (a gateway, a misrouted request): any to
 var payloads = []string{"", `<q xmlns='urn:q'/>`, `<iq xmlns='urn:q' id='a' type='result'/>`, `text`, `<other xmlns='urn:other'><q xmlns='urn:q'/></other>`}
 
